@@ -471,7 +471,7 @@ def known_doc(kind, doc_t, r):
         return "C07-nonmap-document"
     if kind in ("rule", "filter") and re_nonstring(doc_t):
         return "C07-re-nonstring-value"
-    if kind == "corr" and corr_nonstring_ref(doc_t) and strict[0] == "crash":
+    if kind == "corr" and corr_nonstring_ref(doc_t) and "crash" in (strict[0], collect[0]):
         return "C07-corr-nonstring-rule-reference"
     if kind == "corr" and collect[0] == "sigma" and collect[1] in CORR_RAISE and strict[0] == "sigma":
         return "C07-corr-collect-raises"
